@@ -89,6 +89,16 @@ def check(run, project):
     run.ob("T1", bool(ev_yields), "the pump re-yields the processor's events", "no `yield <event>` left in the pump",
            module=mod, node=fn, func=fn.name, construct="yield event")
     promptness(run, roles)
+    # only the primitive walker (and the uncharged skip helper) may ask the pump for bytes: any other walker that reads
+    # bytes itself holds complete but unemitted fields (more than one byte of look-ahead) and drops them on truncation
+    for name, wfn in roles.funcs.items():
+        for y in walk_no_nested(wfn):
+            if isinstance(y, ast.Yield) and (y.value is None or (isinstance(y.value, ast.Constant) and y.value.value is None)):
+                ok = name in ("process_primitive", "consume_bytes")
+                run.ob("T1", ok, f"{name} L{y.lineno}: byte request",
+                       f"{name} requests input bytes itself instead of decoding field by field through the primitive walker: the "
+                       "bytes it has pulled are not emitted as events until later", module=mod, node=y, func=name,
+                       construct=f"byte request in {name}")
     # ---- T2
     t2(run, project)
     # ---- T3
